@@ -11,7 +11,7 @@ PARTIAL = ""
 
 
 def oracle(ctx):
-    n = (400 if ctx["tier"] == "quick" else 4000) * ctx["boost"]
+    n = (800 if ctx["tier"] == "quick" else 4000) * ctx["boost"]
     return cm.run_cases(fw.c01_case, ctx["seed"], ID, n, {"size": 60 if ctx["tier"] == "quick" else 3 * 60})
 
 
